@@ -426,8 +426,13 @@ func main() {
 				rcv = got
 			}
 		}
+		addrProblem := senderProbe()
 		for i, line := range lines {
 			o := runOne(line)
+			if addrProblem != "" && strings.HasPrefix(o, "OK ") {
+				o += " RCVADDR " + strings.ReplaceAll(addrProblem, " ", "_")
+				addrProblem = ""
+			}
 			if strings.HasPrefix(rcv[i], "diff") && strings.HasPrefix(o, "OK ") {
 				o += " RCVALIAS receiver-buffer-overwritten " + strings.TrimPrefix(rcv[i], "diff")
 			}
